@@ -1,0 +1,88 @@
+//go:build verif
+// +build verif
+
+// Exports for the janitor part of the external verification harness (/verif, property C07): what
+// session.recover computes from a storage (the input of recoverJournal and checkAndCleanFiles), the
+// file numbers a DB works with, and two commits that put a DB into states its own operations do not
+// reach (a manifest that carries a prev-journal number; a live table numbered above the next file
+// number). Compiled only with -tags verif; add-only.
+
+package leveldb
+
+import (
+	"github.com/syndtr/goleveldb/leveldb/opt"
+	"github.com/syndtr/goleveldb/leveldb/storage"
+)
+
+// VerifView is what session.recover leaves in the session.
+type VerifView struct {
+	Tables         []VerifTable
+	JournalNum     int64
+	PrevJournalNum int64
+	NextFileNum    int64
+	ManifestNum    int64
+}
+
+// VerifRecoverView runs newSession + session.recover on stor (nothing is written), reports what it
+// computed and closes the session again. Use it on a clone of the storage a DB will be opened on.
+func VerifRecoverView(stor storage.Storage, o *opt.Options) (v VerifView, err error) {
+	s, err := newSession(stor, o)
+	if err != nil {
+		return v, err
+	}
+	defer func() {
+		s.close()
+		s.release()
+	}()
+	if err = s.recover(); err != nil {
+		return v, err
+	}
+	ver := s.version()
+	v.Tables = verifDumpLevels(ver.levels)
+	ver.release()
+	v.JournalNum = s.stJournalNum
+	v.PrevJournalNum = s.stPrevJournalNum
+	v.NextFileNum = s.nextFileNum()
+	v.ManifestNum = s.manifestFd.Num
+	return v, nil
+}
+
+// VerifNums are the file numbers an open DB works with.
+type VerifNums struct {
+	StJournalNum, StPrevJournalNum, NextFileNum int64
+	ManifestNum, JournalNum, FrozenJournalNum  int64
+	HasFrozenJournal                           bool
+}
+
+// VerifFileNums reads them (call it on a quiet DB).
+func VerifFileNums(db *DB) VerifNums {
+	db.memMu.RLock()
+	defer db.memMu.RUnlock()
+	return VerifNums{
+		StJournalNum: db.s.stJournalNum, StPrevJournalNum: db.s.stPrevJournalNum, NextFileNum: db.s.nextFileNum(),
+		ManifestNum: db.s.manifestFd.Num, JournalNum: db.journalFd.Num,
+		FrozenJournalNum: db.frozenJournalFd.Num, HasFrozenJournal: !db.frozenJournalFd.Zero(),
+	}
+}
+
+// VerifCommitPrevJournal commits a record that carries only a prev-journal number (what a manifest
+// written by the C++ implementation may carry).
+func VerifCommitPrevJournal(db *DB, num int64) error {
+	db.compCommitLk.Lock()
+	defer db.compCommitLk.Unlock()
+	rec := &sessionRecord{}
+	rec.setPrevJournalNum(num)
+	return db.s.commit(rec, false)
+}
+
+// VerifCommitRenumber commits a record that replaces table t of the current version by the same
+// table under another file number (the caller has put a copy of the file there). The next file
+// number is not touched.
+func VerifCommitRenumber(db *DB, t VerifTable, num int64) error {
+	db.compCommitLk.Lock()
+	defer db.compCommitLk.Unlock()
+	rec := &sessionRecord{}
+	rec.delTable(t.Level, t.Num)
+	rec.addTable(t.Level, num, t.Size, internalKey(t.Imin), internalKey(t.Imax))
+	return db.s.commit(rec, false)
+}
